@@ -1,6 +1,8 @@
 SPECIFICATION Spec
 CHECK_DEADLOCK FALSE
 CONSTANTS MaxRot = 3
+  MaxCrash = 2
+  Recovery = "latest"
 INVARIANT Inv_OneActive
 INVARIANT Inv_Unchanged
 INVARIANT Inv_CanStart
